@@ -62,10 +62,10 @@ Check(os, e) ==
         e.fail \/ ~e.objs[e.h].live \/ ~e.objs[e.h].r.hassp \/ x.os[e.h].params = NormL(e.objs[e.h].r.params)>>,
     <<"C13: a handle other than the one acted on changed", \A h \in live \ {e.h} : os[h].live => ObjOfLog(e.objs[h]) = os[h]>>,
     <<"C13: a handle's SearchParams object writes through to another URL", \A h \in live : ~e.objs[h].r.hassp \/ e.objs[h].r.ownsp>>,
-    <<"C04: observed getters are not well-formed", \A h \in live : WellFormedG(e.objs[h].g) \/ e.op = "sp" \/ ~WellFormedG(Getters(RecOf(e.objs[h].r)))>>,
+    <<"C04: observed getters are not well-formed", POpts # DefaultOpts \/ \A h \in live : WellFormedG(e.objs[h].g) \/ e.op = "sp" \/ ~WellFormedG(Getters(RecOf(e.objs[h].r)))>>,
     <<"C04: Href is not the composition of the getters",
         \A h \in live : LET r == e.objs[h].r IN CompositionG(e.objs[h].g, r.host = <<>>, r.query = <<>>, r.frag = <<>>) /\ CompositionPublicG(e.objs[h].g)>>,
-    <<"C19: derived accessors disagree with the primary components", \A h \in live : DerivedG(e.objs[h].g)>>,
+    <<"C19: derived accessors disagree with the primary components", POpts # DefaultOpts \/ \A h \in live : DerivedG(e.objs[h].g)>>,     \* (the value predicates assume the default special-scheme table)
     <<"C12: after a list mutation the query is not the serialization of the list",
         e.op # "sp" \/ e.objs[e.h].g.query = SerList(NormL(e.objs[e.h].r.params)) \/ (e.objs[e.h].g.query = <<>> /\ e.objs[e.h].r.params = <<>>)>>,
     <<"C12: after SetSearch the list is not the urlencoded parse of the query",
